@@ -1150,6 +1150,42 @@ func init() {
 						return true
 					})
 					cut := fc.edgesEntailing(quotedCls(info, hu.Decl.Body, head), notQuoted)
+					// the test may be made by a selecting helper whose nil result is the refusal
+					// (`mac := macroCallee(env, form); if mac == nil { return form }`): the non-nil edges of its
+					// result carry what every non-nil return of the helper lies behind
+					viaHelper := ""
+					ast.Inspect(hu.Decl.Body, func(n ast.Node) bool {
+						as, ok := n.(*ast.AssignStmt)
+						if !ok || len(as.Lhs) != 1 || len(as.Rhs) != 1 {
+							return true
+						}
+						hc, ok := ast.Unparen(as.Rhs[0]).(*ast.CallExpr)
+						if !ok {
+							return true
+						}
+						h := originOf(Callee(info, hc))
+						obj := identObj(info, as.Lhs[0])
+						if h == nil || obj == nil || h.Pkg() != hu.Obj.Pkg() || h.Exported() {
+							return true
+						}
+						hd := c.declOf[h]
+						if hd == nil || hd.Body == nil {
+							return true
+						}
+						hhead := headLocalOf(c.pkgOf[hd].TypesInfo, hd.Body)
+						if hhead == "" {
+							return true
+						}
+						sub := func(hi *types.Info) func(e ast.Expr) (string, bool) { return quotedCls(hi, hd.Body, hhead) }
+						if c.helperNonNilEntails(h, sub, notQuoted) {
+							cut = append(cut, fc.nilEdges(obj, false)...)
+							viaHelper = h.Name() + ": " + hhead
+						}
+						return true
+					})
+					if head == "" && viaHelper != "" {
+						head = viaHelper
+					}
 					for _, b := range fc.G.Blocks {
 						if !fc.Live(b) {
 							continue
@@ -1428,4 +1464,26 @@ func init() {
 			}
 			return obs
 		}})
+}
+
+// headLocalOf: the name of the local defined as <form>.Cells[0] in body ("" if none).
+func headLocalOf(info *types.Info, body ast.Node) string {
+	head := ""
+	ast.Inspect(body, func(n ast.Node) bool {
+		as, ok := n.(*ast.AssignStmt)
+		if !ok || len(as.Lhs) != 1 || len(as.Rhs) != 1 {
+			return true
+		}
+		if ix, ok := ast.Unparen(as.Rhs[0]).(*ast.IndexExpr); ok {
+			if k, ok := intConst(info, ix.Index); ok && k == 0 {
+				if se, ok := ast.Unparen(ix.X).(*ast.SelectorExpr); ok && se.Sel.Name == "Cells" {
+					if id, ok := as.Lhs[0].(*ast.Ident); ok {
+						head = id.Name
+					}
+				}
+			}
+		}
+		return true
+	})
+	return head
 }
